@@ -43,11 +43,12 @@ Init == /\ l = 1
 Eval == /\ phase = "new" /\ phase' = "done" /\ UNCHANGED <<par, l>>
 
 C15_AnnuitiesSumToOne == phase = "done" => RMul(Crf(par.i, par.n), Annuity(par.i, par.n)) = <<1, 1>>
+C15_FactorDecreasesWithLife == (phase = "done" /\ par.n + 1 \in Years) => RLt(Crf(par.i, par.n + 1), Crf(par.i, par.n))       \* a longer life never costs more per year
 C15_CostIncreasesWithArea ==
   phase = "done" => \A A2 \in Areas : A2 > par.A => RLt(CostLinear(par.A, par.N, par.a, par.b), CostLinear(A2, par.N, par.a, par.b)) \/ par.b = 0
 EmitCase == (DoEmit /\ phase = "done") =>
   PrintT(<<"CASE", ToJson([A |-> par.A, N |-> par.N, a |-> par.a, b |-> par.b, i |-> par.i, n |-> par.n,
-                           cost1 |-> CostLinear(par.A, par.N, par.a, par.b), crf |-> Crf(par.i, par.n),
+                           cost1 |-> CostLinear(par.A, par.N, par.a, par.b), crf |-> Crf(par.i, par.n), crfNext |-> IF par.n + 1 \in Years THEN Crf(par.i, par.n + 1) ELSE <<0, 1>>,      \* (1 + i)^5 would leave 32 bits
                            halfsq |-> Norm(par.A, par.N)])>>)
 
 (* ---- Part 2 ---- *)
